@@ -123,27 +123,51 @@ def r38_first_and_last_action(ctx):
                   'the first non-log action of a count is one of %s (it fills the record header)' % '/'.join(fill),
                   'no elect/defeat/transfer/tie action is reachable before the first begin/count/round action (%d sites)' % len(fills),
                   'an action at line %s can be recorded before any begin/count/round action' % (sorted(x.line for x in before)[0] if before else '?'))
-    # Election.count: rule.count(); logAction('end'); elected/defeated/withdrawn from C; postCheck
+    # Election.count: rule.count(); then the 'end' action; then elected/defeated/withdrawn read from C with no status
+    # writer in between; then postCheck - checked on the CFG, extra non-status statements are tolerated
     cnt = ctx.repo.func('droop.election.Election.count')
-    body = [s for s in cnt.node.body if not (isinstance(s, ast.Expr) and isinstance(s.value, ast.Constant))]
-    texts = [unparse(s) for s in body]
-    try:
-        i_count = texts.index('self.rule.count()')
-    except ValueError:
-        raise AnalysisError('R38: Election.count does not call self.rule.count() at top level')
-    tail = texts[i_count + 1:]
-    ok_end = bool(tail) and tail[0].startswith("self.logAction('end'")
-    ctx.check(ok_end, R, body[i_count + 1] if len(body) > i_count + 1 else cnt.node, cnt,
-              "the 'end' action directly follows the rule's count", "self.logAction('end', ...) is the statement after self.rule.count()",
-              "the statement after self.rule.count() is not the 'end' action")
-    want = {'self.elected = self.C.elected()', 'self.defeated = self.C.defeated()', 'self.withdrawn = self.C.withdrawn()'}
-    rest = tail[1:]
-    got = set(rest[:3])
-    ctx.check(got == want, R, cnt.node, cnt, "the results the election object reports are read from the candidates right after the 'end' action",
-              'elected/defeated/withdrawn = C.elected()/defeated()/withdrawn() with no statement in between',
-              "after the 'end' action Election.count executes %s before/instead of reading the results" % rest[:3])
-    ctx.check(rest[3:] == ['self.postCheck()'], R, cnt.node, cnt, 'nothing follows the result assignment but the post-count sanity check',
-              'self.postCheck() is the last statement', 'Election.count continues with %s' % rest[3:])
+    ccfg = cfg_of(cnt)
+
+    def nodes_calling(pred):
+        return {x for x in ccfg.stmt_nodes() if any(pred(c) for c in calls_at(x))}
+    rc = nodes_calling(lambda c: unparse(c.func) == 'self.rule.count')
+    need(len(rc) == 1, 'R38: Election.count does not call self.rule.count() exactly once')
+    rcn = list(rc)[0]
+    ends = nodes_calling(lambda c: unparse(c.func) == 'self.logAction' and c.args and const_str(c.args[0]) == 'end')
+    ok_end = len(ends) == 1 and ccfg.exit not in ccfg.reach([rcn], avoid=ends) and list(ends)[0] in ccfg.reach([rcn])
+    ctx.check(ok_end, R, list(ends)[0].ast if ends else cnt.node, cnt, "the 'end' action follows the rule's count on every path",
+              "every path from self.rule.count() to the end of Election.count passes self.logAction('end', ...)",
+              "Election.count can finish without recording the 'end' action after the rule's count")
+    res = {}
+    for x in ccfg.stmt_nodes():
+        st = x.ast
+        if x.kind == 'stmt' and isinstance(st, ast.Assign) and len(st.targets) == 1 and unparse(st.targets[0]) in ('self.elected', 'self.defeated', 'self.withdrawn'):
+            res.setdefault(unparse(st.targets[0]), []).append(x)
+    want = {'self.elected': 'self.C.elected()', 'self.defeated': 'self.C.defeated()', 'self.withdrawn': 'self.C.withdrawn()'}
+    after_end = ccfg.reach(list(ends)) if ends else set()
+    ok_res = True
+    why = ''
+    for tgt, val in want.items():
+        xs = [x for x in res.get(tgt, []) if x in after_end]
+        if len(xs) != 1 or unparse(xs[0].ast.value) != val:
+            ok_res = False
+            why = '%s is not assigned %s after the end action (%s)' % (tgt, val, [unparse(x.ast.value) for x in res.get(tgt, [])])
+    # nothing that can change a status between the end action and the last result assignment
+    if ok_res and ends:
+        last = max((x for v in res.values() for x in v if x in after_end), key=lambda x: x.line)
+        between = ccfg.reach(list(ends), avoid=[last])
+        for x in between:
+            for c in calls_at(x):
+                fn = unparse(c.func)
+                if fn.endswith(('.elect', '.defeat', '.unelect', '.unpend', 'rule.count')) or fn in ('self.count',):
+                    ok_res = False
+                    why = 'status-changing call `%s` between the end action and the result assignment' % fn
+    ctx.check(ok_res, R, cnt.node, cnt, "the results the election object reports are read from the candidates after the 'end' action, with no status change in between",
+              'elected/defeated/withdrawn = C.elected()/defeated()/withdrawn() after the end action', why)
+    pcs = nodes_calling(lambda c: unparse(c.func) == 'self.postCheck')
+    ok_pc = bool(pcs) and all(ccfg.exit not in ccfg.reach([x], avoid=pcs) for v in res.values() for x in v if x in after_end) and ok_res
+    ctx.check(ok_pc, R, cnt.node, cnt, 'the post-count sanity check runs after the results were read', 'self.postCheck() on every path after the result assignments',
+              'Election.count can return without running postCheck on the results')
     # postCheck asserts seats filled
     pc = ctx.repo.func('droop.election.Election.postCheck')
     asserts = [n for n in pc.own_nodes() if isinstance(n, ast.Assert)]
